@@ -55,6 +55,48 @@ class Lock:
         self.f.close()
 
 
+def coqchk_all(limit):
+    """One coqchk run over every compiled property file (each library of the development is re-checked once), shared by
+    the thorough checks of all properties through a cache keyed by the digest of every .vo file.  Returns
+    (exit code, output, description); a non-zero exit code means "no shared result", never a rejection by itself."""
+    import hashlib
+    vos = []
+    for root, _, files in os.walk(COQ):
+        for fn in files:
+            if fn.endswith(".vo"):
+                vos.append(os.path.join(root, fn))
+    vos.sort()
+    h = hashlib.sha256()
+    for f in vos:
+        h.update(os.path.relpath(f, COQ).encode())
+        h.update(hashlib.sha256(open(f, "rb").read()).digest())
+    key = h.hexdigest()[:24]
+    cdir = os.path.join(BUILD, "coqchk")
+    os.makedirs(cdir, exist_ok=True)
+    cpath = os.path.join(cdir, key + ".json")
+    lock = open(os.path.join(cdir, ".lock"), "w")
+    fcntl.flock(lock, fcntl.LOCK_EX)
+    try:
+        if os.path.exists(cpath):
+            c = json.load(open(cpath))
+            return c["exit"], c["output"], "reused: coqchk over %d property files, %d s, run at %s, digest %s" % (
+                len(c["modules"]), c["seconds"], c["at"], key)
+        mods = []
+        for pid2, P2 in sorted(PROPS.items()):
+            if os.path.exists(os.path.join(COQ, P2["props_file"] + "o")):
+                mods.append("Astits." + P2["props_file"].replace("/", ".").replace(".v", ""))
+        t = time.time()
+        rc, out = run(["coqchk", "-silent", "-o", "-R", ".", "Astits"] + mods, cwd=COQ, timeout=max(limit, int(os.environ.get("VERIF_COQCHK_ALL_TIMEOUT", "9000"))))
+        if rc == 0:
+            json.dump({"exit": 0, "output": out[-4000:], "modules": mods, "seconds": round(time.time() - t),
+                       "at": time.strftime("%Y-%m-%dT%H:%M:%SZ", time.gmtime())}, open(cpath, "w"))
+            return 0, out, "coqchk over %d property files in one run, %d s, digest %s" % (len(mods), round(time.time() - t), key)
+        return rc or 1, out, None
+    finally:
+        fcntl.flock(lock, fcntl.LOCK_UN)
+        lock.close()
+
+
 def gate():
     """Refuse any development that declares axioms, admits proofs or switches off kernel checks."""
     bad = []
@@ -431,13 +473,19 @@ def main():
         limit = int(os.environ.get("VERIF_COQCHK_TIMEOUT", "5400"))
         mod = "Astits." + P["props_file"].replace("/", ".").replace(".v", "")
         t1 = time.time()
-        rc, out = run(["coqchk", "-silent", "-o", "-R", ".", "Astits", mod], cwd=COQ, timeout=limit)
+        rc, out, shared = coqchk_all(limit)
+        if rc != 0:
+            # no shared result (other property files not built, stale, or out of time): this property's own cone
+            rc, out = run(["coqchk", "-silent", "-o", "-R", ".", "Astits", mod], cwd=COQ, timeout=limit)
+            shared = None
         tail = out.strip().split("\n")[-15:]
         if rc == 124 and out.rstrip().endswith("TIMEOUT"):
             ev["coverage"]["coqchk"] = {"exit": "not finished within %d s (VERIF_COQCHK_TIMEOUT)" % limit, "output_tail": tail}
             lines.append("NOTE coqchk on %s did not finish within %d s; the proofs were checked by coqc only" % (mod, limit))
         else:
             ev["coverage"]["coqchk"] = {"exit": rc, "seconds": round(time.time() - t1), "output_tail": tail}
+            if shared:
+                ev["coverage"]["coqchk"]["shared_run"] = shared
             if rc:
                 rp = os.path.join(V, "replays", "%s-coqchk.json" % pid)
                 json.dump({"property": pid, "kind": "tie-broken",
